@@ -121,6 +121,20 @@ Theorem C04_checker_reads_model : forall o a m d,
 Proof. exact checker_reads_model. Qed.
 Print Assumptions C04_checker_reads_model.
 
+(* proposal pay-outs with several payees and denominations (SpendingPoolWithdraw, SpendingPoolDistribution,
+   claims at the pool's rates): what leaves the account is exactly what leaves the records, per payee *)
+Theorem C04_multi_payee_payout_matches_books : forall m0 k i pays m d, is_escrow m = true -> pays_ok pays = true ->
+  effs_liab (pay_effs m0 k i pays) m d = effs_bal (pay_effs m0 k i pays) m d.
+Proof. exact pay_balanced. Qed.
+Print Assumptions C04_multi_payee_payout_matches_books.
+
+(* basket mint / burn with the code's own arithmetic (amount minted, portion of the reserves paid out) *)
+Theorem C04_basket_burn_balanced : forall u b t outs m d, is_user u = true -> is_escrow m = true ->
+  forallb (fun o => 0 <=? snd o) outs = true ->
+  effs_liab (bkburn_effs u b t outs) m d <= effs_bal (bkburn_effs u b t outs) m d.
+Proof. exact bkburn_balanced. Qed.
+Print Assumptions C04_basket_burn_balanced.
+
 (* non-vacuity: a history exercising delegation, undelegation, a basket, a spending pool and a tip
    that ends in a solvent state with non-trivial books *)
 Example C04_nonvacuous :
@@ -131,4 +145,16 @@ Example C04_nonvacuous :
   let s := run h (genesis g0) in
   forallb item_safe h = true /\ liab s MS 0 = 300 /\ bal s MS 0 = 300 /\ liab s FC 0 = 25 /\ bal s FC 0 = 120 /\
   liab s BASKET 1 = 252 /\ liab s BASKET 0 = 100 /\ liab s SPEND 0 = 25 /\ liab s GOV 0 = 25 /\ supply s 0 = 1090.
+Proof. vm_compute. repeat split; reflexivity. Qed.
+
+(* non-vacuity of the round-2 operations: a withdraw proposal paying two beneficiaries two denominations,
+   rate-based claims of two beneficiaries, a two-token basket mint and a burn at the code's portion *)
+Example C04_nonvacuous_proposals :
+  let h := [ITx 100 0 10 [SpDeposit 100 7 0 5000; SpDeposit 100 7 1 700; BkMintC 100 2 [(1, 300, 2 * PREC); (0, 100, PREC)]];
+            IAct [SpWithdrawProp 7 [101; 102] [(0, 1000); (1, 100)]];
+            IAct [SpClaims 7 [(0, HALF); (1, PREC / 10)] [(101, 100, PREC); (102, 60, 2 * PREC)]];
+            ITx 100 0 10 [BkBurnC 100 2 200 [0; 1]]] in
+  let s := run h (genesis [(100, 0, 100000); (100, 1, 100000)]) in
+  forallb item_safe h = true /\ liab s SPEND 0 = 2890 /\ bal s SPEND 0 = 2890 /\ liab s SPEND 1 = 478 /\ bal s SPEND 1 = 478 /\
+  bal s 101 0 = 1050 /\ bal s 102 1 = 112 /\ supply s (basket_denom 2) = 500 /\ liab s BASKET 1 = 180 /\ bal s BASKET 1 = 180.
 Proof. vm_compute. repeat split; reflexivity. Qed.
